@@ -64,17 +64,24 @@ def renumber(s, rng):
 def variants_c14(s, rng, k):
     out = []
     seed0 = rng.randrange(1 << 30)
+    # one spelling policy per scenario, the same in all its renderings: everything by id, or per entity (half of the
+    # entities by alias) with names that are the decimal ids of other entities
+    per_entity = seed0 % 2 == 1
     for v in range(k):
-        # same spelling choices (same seed for the spelling stream is not separable from shuffling, so use a fixed spelling)
-        r = {"spelling": "id", "shuffle": v > 0, "descriptive": False, "seed": seed0 + v}
-        out.append((s, S.render(s, random.Random(r["seed"]), r["spelling"], r["shuffle"], False), r))
+        r = {"spelling": "entity" if per_entity else "id", "shuffle": v > 0, "descriptive": False, "seed": seed0 + v, "numeric_names": per_entity}
+        out.append((s, S.render(s, random.Random(r["seed"]), r["spelling"], r["shuffle"], False, r["numeric_names"]), r))
     return out
 
 
 def variants_c15(s, rng, k, force_id=False):
     out = []
-    for v in range(k):
-        if v < 3:
+    for v in range(k + 1):
+        if v == k:
+            # every entity named like its own id, references by alias
+            r = {"spelling": "alias" if not force_id else "id", "shuffle": False, "descriptive": False, "seed": rng.randrange(1 << 30), "renumbered": False,
+                 "numeric_names": "own"}
+            out.append((s, S.render(s, random.Random(r["seed"]), r["spelling"], False, False, "own"), r))
+        elif v < 3:
             r = {"spelling": ["id", "alias", "mixed"][v] if not force_id else "id", "shuffle": False, "descriptive": False, "seed": rng.randrange(1 << 30), "renumbered": False,
                  "numeric_names": True if v == 2 else ("odd" if v == 1 else False)}
             out.append((s, S.render(s, random.Random(r["seed"]), r["spelling"], False, False, r["numeric_names"]), r))
